@@ -13,7 +13,7 @@ NOT_APPLICABLE = {
 SM_KICK = [sm.CalcCoefficiants, sm.UpdateSM, sm.KickMapApply, sm.SourceMapCtor, sm.SourceMapCtor7, sm.KickMapCtor,
            sm.RFCalcKick, sm.RFKickMapLinearCtor, sm.RFKickMapSinCtor, sm.DriftMapCtor, sm.WakePotentialMapUpdate]
 SM_FP = [sm.FokkerPlanckCtor, sm.FokkerPlanckApply]
-Z_UNITS = [z.FreeSpaceCSRCalc, z.ResistiveWallCalc, z.ConstImpedanceCalc, z.ParallelPlatesCalc, z.ImpedanceAddAssign,
+Z_UNITS = [z.FreeSpaceCSRCalc, z.ResistiveWallCalc, z.ResistiveWallScale, z.ConstImpedanceCalc, z.ParallelPlatesCalc, z.ImpedanceAddAssign,
            z.ImpedanceCtorRuler, z.ImpedanceCtorVec, z.ImpedanceCtorZero, z.FreeSpaceCSRCtor, z.ResistiveWallCtor, z.ConstImpedanceCtor,
            z.ParallelPlatesCtor, z.CollimatorCtor, z.MakeImpedance, z.ImpedanceReadData, z.ImpedanceSwap, z.ImpedanceAssign]
 TECH = 'contract-based deductive verification: contracts (specs/*.py) enforced on the real functions by a VCG over the clang AST, z3 (cvc5 second opinion); lemma layer over contract symbols'
